@@ -161,8 +161,10 @@ def execute(case, ctx):
         erng.shuffle(early)
         early = sorted(early[: case.get("early_points", 4)])
     if len(points) > case.get("max_points", 40):
-        keep = [p for p in points if p[1] in IMPORTANT]
-        rest = [p for p in points if p[1] not in IMPORTANT]
+        # (the reads behind the last replace belong to the scan for unused externals that decides what trim deletes: always kept, errors only)
+        last_replace = max([i for i, k, r, ph in trace if k == "replace"] or [10**9])
+        keep = [p for p in points if p[1] in IMPORTANT or (p[1] == "read_text" and p[0] > last_replace and p[3] == "oserror")]
+        rest = [p for p in points if p not in keep]
         rng = sub(case.get("max_points", 40), "points" + str(len(points)))
         rng.shuffle(rest)
         points = sorted(keep + rest[: max(0, case["max_points"] - len(keep))])
